@@ -97,16 +97,23 @@ func runDecodeIO(dec func(r io.Reader) (interface{}, error), r io.Reader) {
 
 // clampTrace runs the pre-flight (see clampReader) and returns the input the
 // decoder was actually shown and whether it differs from b.
-func clampTrace(dec func(r io.Reader) (interface{}, error), b []byte, limit, limit16 uint64) ([]byte, bool) {
+//
+// complete is false when the pre-flight could not be finished (too many
+// 64-bit varints discovered one restart at a time); the input must then not
+// be decoded at face value.
+func clampTrace(dec func(r io.Reader) (interface{}, error), b []byte, limit, limit16 uint64) (x1 []byte, subst bool, complete bool) {
 	varint64 := map[int]bool{}
 	for try := 0; ; try++ {
 		cr := newClampReader(b, limit, limit16, varint64)
 		runDecodeIO(dec, cr)
-		if cr.found >= 0 && try < 64 {
+		if cr.found >= 0 {
+			if try >= 300 {
+				return cr.materialised(), true, false
+			}
 			varint64[cr.found] = true
 			continue
 		}
-		return cr.materialised(), cr.subst
+		return cr.materialised(), cr.subst, true
 	}
 }
 
